@@ -141,6 +141,14 @@ func init() {
 	mut("C27", "genesis-supply-unchecked", "genesis/genesis.go", "\t\tsupply, err = safemath.Add(supply, alloc.Balance)\n\t\tif err != nil {\n\t\t\treturn err\n\t\t}", "\t\tsupply, err = safemath.Add(supply, alloc.Balance)\n\t\tif err != nil {\n\t\t\tsupply = 0\n\t\t}", "total supply may wrap")
 	mut("C27", "genesis-credit-error-ignored", "genesis/genesis.go", "\t\tif err := balanceHandler.AddBalance(ctx, alloc.Address, mu, alloc.Balance); err != nil {\n\t\t\treturn fmt.Errorf(\"%w: addr=%s, bal=%d\", err, alloc.Address, alloc.Balance)\n\t\t}", "\t\tif err := balanceHandler.AddBalance(ctx, alloc.Address, mu, alloc.Balance); err != nil {\n\t\t\t_ = fmt.Errorf(\"%w: addr=%s, bal=%d\", err, alloc.Address, alloc.Balance)\n\t\t}", "allocation silently missing")
 	mp := "internal/mempool/mempool.go"
+	dn, dst := "x/dsmr/node.go", "x/dsmr/storage.go"
+	mut("C35", "revert-fix-fetched-identity", dn, "\t\t\t\t\tif response.id != chunkCert.ChunkID || response.Expiry != chunkCert.Expiry {", "\t\t\t\t\tif response.id != chunkCert.ChunkID && response.Expiry != chunkCert.Expiry {", "a different valid chunk with the same expiry is appended")
+	mut("C35", "rate-limit-in-storage-verification", dst, "\tif err := s.verifier.Verify(c); err != nil {\n\t\treturn nil, err\n\t}\n\tif err := s.putVerifiedChunk(c, nil); err != nil {", "\tif err := s.verifier.Verify(c); err != nil {\n\t\treturn nil, err\n\t}\n\tif err := s.CheckRateLimit(c); err != nil {\n\t\treturn nil, err\n\t}\n\tif err := s.putVerifiedChunk(c, nil); err != nil {", "Accept never completes for a rate-limited producer")
+	mut("C36", "revert-fix-nil-cert", dst, "\t\tif chunkCertInfo.Cert == nil {\n\t\t\treturn nil, nil\n\t\t}\n", "", "nil certificate dereferenced")
+	mut("C36", "revert-fix-verifier-min", dst, "\tverifier.SetMin(minSlot)\n", "", "verifier restarts at minimum 0")
+	mut("C36", "revert-fix-setmin-validation", dst, "\t\tif !pending || duplicate {\n\t\t\treturn fmt.Errorf(\"failed to save chunk %s\", saveChunkID)\n\t\t}", "\t\t_, _ = pending, duplicate", "SetMin mutates before validating")
+	mut("C09", "revert-fix-sync-finish-replay", "vm/vm.go", "\t\tif err == nil && block.Hght > lastAcceptedHeight {\n\t\t\tisNormalOp = true\n\t\t}", "\t\t_, _ = err, lastAcceptedHeight", "processing blocks re-verified without replay check")
+	mut("C21", "revert-fix-rejections-subtracted", "snow/statesync.go", "\tinvalidBlkIDs.Difference(rejected)\n", "", "blocks rejected during re-verification stay unresolved")
 	mut("C23", "revert-fix-front-order", mp, "\t\t\titem = items[len(items)-1-i]", "\t\t\titem = items[i]", "restored block reversed")
 	mut("C23", "revert-fix-prefetched-after-given", mp, "\t\tm.nextStreamFetched = false\n\t}\n\tm.add(restorable, true)\n\tm.streamLock.Unlock()", "\t\tm.nextStreamFetched = false\n\t}\n\tm.streamLock.Unlock()", "given-back items dropped / wrong order")
 	mut("C23", "revert-fix-lock-order", mp, "\tm.streamLock.Lock()\n\n\tm.mu.Lock()\n\tdefer m.mu.Unlock()\n\n\tm.streamedItems", "\tm.mu.Lock()\n\tdefer m.mu.Unlock()\n\n\tm.streamLock.Lock()\n\tm.streamedItems", "StartStreaming waits for the stream lock holding mu")
